@@ -3,7 +3,9 @@ package c02
 // The `key` op: the glue from a listen address as written in a config to the sockets it stands for
 // and the key its listener is booked under, on the real functions.
 //
-//	key <L|N> <addr> <network> <host> <port>     (hex; "$D" in addr/host stands for the private directory)
+//	key <L|N|F> <addr> <network> <host> <port>   (hex; "$D" in addr/host stands for the private directory,
+//	                                             "$F" for the number of a descriptor of a listening tcp socket
+//	                                             the harness opens for the case: fd/$F, mode F)
 //
 // network/host/port are what the real caddy.SplitNetworkAddress returned for addr when the line was
 // generated; the driver checks the byte-level model of the splitter (C13/Listen.lean) against them. With L the harness really listens on the
@@ -16,7 +18,10 @@ import (
 	"fmt"
 	"io"
 	"net"
+	"os"
+	"strconv"
 	"strings"
+	"time"
 
 	"github.com/caddyserver/caddy/v2"
 
@@ -25,8 +30,24 @@ import (
 
 func (p *prop) runKey(f []string) core.Outcome {
 	bad := core.Outcome{Impl: "bad-op", Tags: []string{"trivial", "bad-op"}}
-	if len(f) != 6 || (f[1] != "L" && f[1] != "N") {
+	if len(f) != 6 || (f[1] != "L" && f[1] != "N" && f[1] != "F") {
 		return bad
+	}
+	fdStr, basePort := "", 0
+	var baseFile *os.File
+	if f[1] == "F" {
+		// a listening socket handed to caddy by descriptor number (socket activation)
+		base, err := net.Listen("tcp", "127.0.0.1:0")
+		if err != nil {
+			return core.Outcome{Impl: "harness-error", Failures: []core.Failure{{Class: "harness-env", What: err.Error()}}}
+		}
+		basePort = base.Addr().(*net.TCPAddr).Port
+		baseFile, err = base.(*net.TCPListener).File()
+		base.Close() // the duplicate keeps the socket listening
+		if err != nil {
+			return core.Outcome{Impl: "harness-error", Failures: []core.Failure{{Class: "harness-env", What: err.Error()}}}
+		}
+		fdStr = strconv.Itoa(int(baseFile.Fd()))
 	}
 	var v [4]string
 	for i := 0; i < 4; i++ {
@@ -35,13 +56,22 @@ func (p *prop) runKey(f []string) core.Outcome {
 			return bad
 		}
 		v[i] = strings.ReplaceAll(s, "$D", p.env.dir)
+		if f[1] == "F" {
+			v[i] = strings.ReplaceAll(v[i], "$F", fdStr)
+		}
 	}
 	addr := v[0]
 	nw, host, port, serr := caddy.SplitNetworkAddress(addr)
 	if serr != nil || nw != v[1] || host != v[2] || port != v[3] {
 		return bad // the oracle fields are not what the real splitter says
 	}
-	unD := func(s string) string { return strings.ReplaceAll(s, p.env.dir, "$D") }
+	unD := func(s string) string {
+		s = strings.ReplaceAll(s, p.env.dir, "$D")
+		if f[1] == "F" && (s == fdStr || strings.HasSuffix(s, "/"+fdStr)) {
+			s = strings.TrimSuffix(s, fdStr) + "$F"
+		}
+		return s
+	}
 	na, err := caddy.ParseNetworkAddress(addr)
 	if err != nil {
 		return core.Outcome{Impl: "err", Tags: []string{"key-parse-error"}}
@@ -59,6 +89,65 @@ func (p *prop) runKey(f []string) core.Outcome {
 	out := fmt.Sprintf("ok %s %s %d %d %d %s %s", core.Hex(na.Network), core.Hex(unD(na.Host)), na.StartPort, na.EndPort, size, core.Hex(unD(last)), adminOK)
 	tags := []string{"key-" + na.Network}
 	var fails []core.Failure
+	if f[1] == "F" {
+		// two configs listen on the descriptor one after the other's start, both close; caddy never
+		// closes the descriptor it was given: the socket keeps accepting (as the code is, by design)
+		_ = caddy.Stop()
+		ln1, err := na.Listen(context.Background(), 0, net.ListenConfig{})
+		if err != nil {
+			return core.Outcome{Impl: "listen-error", Tags: tags, Failures: []core.Failure{{Class: "key-listen-failed", What: err.Error()}}}
+		}
+		st1 := caddy.VerifListenerSnapshot()
+		var keys []string
+		for k, n := range st1.Pool {
+			if n > 0 && strings.HasPrefix(k, "fd") {
+				keys = append(keys, k)
+			}
+		}
+		u1 := caddy.ListenerUsage(exp[0].Network, exp[0].JoinHostPort(0))
+		ln2, err := na.Listen(context.Background(), 0, net.ListenConfig{})
+		if err != nil {
+			return core.Outcome{Impl: "listen-error", Tags: tags, Failures: []core.Failure{{Class: "key-listen-failed", What: "second Listen on the descriptor: " + err.Error()}}}
+		}
+		u2 := caddy.ListenerUsage(exp[0].Network, exp[0].JoinHostPort(0))
+		ln1.(io.Closer).Close()
+		// the second listener still accepts
+		accepted := make(chan bool, 1)
+		go func() {
+			c, err := ln2.(net.Listener).Accept()
+			if err == nil {
+				c.Close()
+			}
+			accepted <- err == nil
+		}()
+		served := "0"
+		if c, err := net.DialTimeout("tcp", fmt.Sprintf("127.0.0.1:%d", basePort), time.Second); err == nil {
+			c.Close()
+			select {
+			case ok := <-accepted:
+				if ok {
+					served = "1"
+				}
+			case <-time.After(time.Second):
+			}
+		}
+		ln2.(io.Closer).Close()
+		u3 := caddy.ListenerUsage(exp[0].Network, exp[0].JoinHostPort(0))
+		still := "0"
+		if c, err := net.DialTimeout("tcp", fmt.Sprintf("127.0.0.1:%d", basePort), time.Second); err == nil {
+			c.Close()
+			still = "1"
+		}
+		baseFile.Close()
+		if len(keys) != 1 {
+			keys = []string{"?"}
+		}
+		out += fmt.Sprintf(" %s %d %d %s %d %s", core.Hex(unD(keys[0])), u1, u2, served, u3, still)
+		if served != "1" {
+			fails = append(fails, core.Failure{Class: "fd-listener-not-served-after-first-close", What: "two listeners on one inherited descriptor, the first closed: the second did not get the connection"})
+		}
+		tags = append(tags, "key-fd-listened")
+	}
 	if f[1] == "L" {
 		_ = caddy.Stop()
 		before := caddy.VerifListenerSnapshot()
@@ -117,6 +206,7 @@ func (p *prop) genKeys(rng *core.Rand, emit func(string)) {
 	for i, bits := range []string{"", "|0600", "|0660", "|0222", "|0620"} {
 		line("L", fmt.Sprintf("unix/$D/k%d.sock%s", i%2, bits))
 	}
+	line("F", "fd/$F")
 	line("L", fmt.Sprintf("tcp/127.0.0.1:%d", p.env.ports[adm0]))
 	line("L", fmt.Sprintf("127.0.0.1:%d", p.env.ports[0]))
 	for i := 0; i < 12; i++ {
